@@ -3,6 +3,7 @@ package main
 import (
 	"fmt"
 	"go/types"
+	"strconv"
 	"strings"
 
 	"golang.org/x/tools/go/ssa"
@@ -387,6 +388,18 @@ func buildIntrinsics() map[string]intrinsic {
 		return str{c}
 	}
 	m["strconv.QuoteRune"] = func(e *Engine, fr *frame, a []value) value { return e.mkstr("'?'") }
+
+	// strconv formatting (base 10): contract model — digit count forked by range, digits are
+	// fresh auxiliary variables constrained by sum(d_i * 10^i) == |x| (uniquely determined).
+	m["strconv.FormatInt"] = func(e *Engine, fr *frame, a []value) value {
+		return e.formatInt(a[0].(*Term), true, a[1].(*Term))
+	}
+	m["strconv.FormatUint"] = func(e *Engine, fr *frame, a []value) value {
+		return e.formatInt(a[0].(*Term), false, a[1].(*Term))
+	}
+	m["strconv.Itoa"] = func(e *Engine, fr *frame, a []value) value {
+		return e.formatInt(a[0].(*Term), true, e.ts.Const(64, 10))
+	}
 
 	// ---- time ----
 	m["time.Now"] = func(e *Engine, fr *frame, a []value) value {
@@ -846,4 +859,53 @@ func (e *Engine) poolPut(p *value, x value) {
 		return
 	}
 	g.items = append(g.items, x)
+}
+
+func (e *Engine) formatInt(x *Term, signed bool, base *Term) value {
+	if !base.IsConst() {
+		e.unsupported("FormatInt with symbolic base")
+	}
+	if x.IsConst() {
+		if signed {
+			return e.mkstr(strconv.FormatInt(int64(x.Val), int(base.Val)))
+		}
+		return e.mkstr(strconv.FormatUint(x.Val, int(base.Val)))
+	}
+	if base.Val != 10 {
+		e.unsupported("FormatInt of symbolic value with base != 10")
+	}
+	ts := e.ts
+	var out []*Term
+	ux := x
+	if signed {
+		if e.branch(ts.Cmp(OpSLt, x, ts.Const(64, 0)), "fmtint.sign") {
+			out = append(out, ts.Const(8, '-'))
+			ux = ts.Un(OpNeg, x)
+		}
+	}
+	// digit count
+	nd := 20
+	p := uint64(10)
+	for k := 1; k <= 19; k++ {
+		if e.branch(ts.Cmp(OpULt, ux, ts.Const(64, p)), "fmtint.digits") {
+			nd = k
+			break
+		}
+		p *= 10
+	}
+	e.fmtSeq++
+	digits := make([]*Term, nd)
+	sum := ts.Const(64, 0)
+	pow := uint64(1)
+	for i := nd - 1; i >= 0; i-- {
+		d := ts.Var(8, fmt.Sprintf("%s!fmtdigit!%d!%d", e.harness, e.fmtSeq, i))
+		e.pathVars = append(e.pathVars, d)
+		e.assumeAux(ts.Cmp(OpULe, d, ts.Const(8, 9)))
+		digits[i] = ts.Bin(OpAdd, d, ts.Const(8, '0'))
+		sum = ts.Bin(OpAdd, sum, ts.Bin(OpMul, ts.ZExt(d, 64), ts.Const(64, pow)))
+		pow *= 10
+	}
+	e.assumeAux(ts.Eq(sum, ux))
+	e.arithUsed = true
+	return str{append(out, digits...)}
 }
